@@ -617,6 +617,8 @@ var ruleBCEExec = &Rule{
 			out.undecided("compiler prove pass", "-", "", err.Error())
 			return out
 		}
+		out.Counts["compiler_sentinel_confirmed"] = 1 // compilerBCE fails unless the sentinel function was reported as expected
+		out.Floors["compiler_sentinel_confirmed"] = 1
 		sort.Slice(fs, func(i, j int) bool {
 			if fs[i].File != fs[j].File {
 				return fs[i].File < fs[j].File
